@@ -102,3 +102,17 @@ func vt(st *Runtime, ev string, args ...interface{}) {
 	}
 	f(e)
 }
+
+var verifLexIDs sync.Map // *lexer -> uint64
+
+// verifLex gives every lexer (one per parse) an identity for the lexer/parser protocol events.
+func verifLex(l *lexer) uint64 {
+	if l == nil {
+		return 0
+	}
+	id, ok := verifLexIDs.Load(l)
+	if !ok {
+		id, _ = verifLexIDs.LoadOrStore(l, atomic.AddUint64(&verifNextID, 1))
+	}
+	return id.(uint64)
+}
